@@ -449,6 +449,10 @@ func c01ClassifyErr(c *C01Case, ty reflect.Type, dec string, se error) string {
 	if dec == "jit" && knownListed("C20-double-unquote-lone-surrogate") && doubleSurrogateRe.Match(c.Doc) && typeHasQuotedString(ty, 0) {
 		return "C20-double-unquote-lone-surrogate"
 	}
+	// the payload of a ,string string field spelled with the escape \' : encoding/json's unquoter knows it, sonic's does not
+	if strings.Contains(se.Error(), "invalid escape char") && bytes.Contains(c.Doc, []byte(`\\'`)) && typeHasQuotedString(ty, 0) && knownListed("C01-string-option-single-quote-escape") {
+		return "C01-string-option-single-quote-escape"
+	}
 	nums := numberTokens(c.Doc)
 	if typeHasFloat32(ty) && knownListed("C19-float32-double-rounding") {
 		for _, n := range nums {
@@ -585,7 +589,7 @@ func (c *C01Case) classifyDupKeyMerge(ty reflect.Type, stdResult reflect.Value) 
 		}
 	}
 	if len(drop) == 0 && len(c.Prefill) == 0 {
-		return ""
+		return c.classifyDupKeyMergeAcrossStructDup(ty, stdResult)
 	}
 	doc2 := ref.RemoveMembers(c.Doc, drop)
 	c2 := *c
@@ -610,6 +614,36 @@ func (c *C01Case) classifyDupKeyMerge(ty reflect.Type, stdResult reflect.Value) 
 		return ""
 	}
 	if c01Apis[c.Cfg].Unmarshal(doc2, sd.Interface()) != nil || deepEq(jd.Elem(), sd.Elem(), "", 0) != "" {
+		return c.classifyDupKeyMergeAcrossStructDup(ty, stdResult)
+	}
+	return "C01-map-duplicate-key-merge"
+}
+
+// classifyDupKeyMergeAcrossStructDup covers the same listed finding when the existing map element comes from an
+// earlier occurrence of a duplicated *struct* member (which encoding/json merges, so it cannot be dropped):
+// {"m":{"a":1},"m":{"a":null}} into struct{M map[string]int}. The mismatch is attributed to the finding when
+// (1) both decoders accept the document, (2) the first difference lies inside a map element, and (3) with every
+// earlier duplicate removed the two decoders agree.
+func (c *C01Case) classifyDupKeyMergeAcrossStructDup(ty reflect.Type, stdResult reflect.Value) string {
+	if len(c.Prefill) > 0 {
+		return ""
+	}
+	all := ref.EarlierDuplicatesFold(c.Doc)
+	if len(all) == 0 || len(all) > 64 {
+		return ""
+	}
+	sd, err := c.newDest(ty)
+	if err != nil || c01Apis[c.Cfg].Unmarshal(c.Doc, sd.Interface()) != nil {
+		return ""
+	}
+	diff := deepEq(stdResult, sd.Elem(), "", 0)
+	if !strings.Contains(diff, "[") {
+		return ""
+	}
+	doc2 := ref.RemoveMembers(c.Doc, all)
+	jd2, _ := c.newDest(ty)
+	sd2, _ := c.newDest(ty)
+	if stdDecode(doc2, jd2.Interface(), c.Cfg) != nil || c01Apis[c.Cfg].Unmarshal(doc2, sd2.Interface()) != nil || deepEq(jd2.Elem(), sd2.Elem(), "", 0) != "" {
 		return ""
 	}
 	return "C01-map-duplicate-key-merge"
